@@ -377,23 +377,49 @@ pub fn op_xcode<M: TreeKey + ?Sized>(ks: &KeySpec, target: &str, cap: usize) -> 
     }
 }
 
+/// how the iterator under test is obtained: `pre` calls of `next()` on a fresh iterator, then `root()` with each
+/// of `roots` in turn (a plain rooted iteration is `pre = 0` and one root)
+pub struct RootHist {
+    pub pre: usize,
+    pub roots: Vec<KeySpec>,
+}
+
+impl RootHist {
+    /// `-` | `<keyspec>` | `H<pre>;<keyspec>;<keyspec>…`
+    pub fn parse(tok: &str) -> Option<Self> {
+        if tok == "-" {
+            return Some(RootHist { pre: 0, roots: vec![] });
+        }
+        if let Some(r) = tok.strip_prefix('H') {
+            let mut parts = r.split(';');
+            let pre = parts.next()?.parse().ok()?;
+            let roots = parts.map(KeySpec::parse).collect::<Option<Vec<_>>>()?;
+            if pre > 0 && roots.is_empty() {
+                return None;
+            }
+            return Some(RootHist { pre, roots });
+        }
+        Some(RootHist { pre: 0, roots: vec![KeySpec::parse(tok)?] })
+    }
+}
+
 fn iter_run<M: TreeKey + ?Sized, N: Transcode + Default + ShowTarget, const D: usize>(
-    root: Option<&KeySpec>,
+    root: &RootHist,
     polls: usize,
     exact: bool,
     limit: usize,
 ) -> String {
-    let it: NodeIter<M, N, D> = M::nodes::<N, D>();
-    let it = match root {
-        None => it,
-        Some(ks) => {
-            let Some(keys) = ks.keys() else { return "bad-op".into() };
-            match it.root(DynKeys(keys)) {
-                Ok(it) => it,
-                Err(e) => return format!("rooterr {}", trav_str(&e)),
-            }
-        }
-    };
+    let mut it: NodeIter<M, N, D> = M::nodes::<N, D>();
+    for _ in 0..root.pre {
+        let _ = it.next();
+    }
+    for ks in &root.roots {
+        let Some(keys) = ks.keys() else { return "bad-op".into() };
+        it = match it.root(DynKeys(keys)) {
+            Ok(it) => it,
+            Err(e) => return format!("rooterr {}", trav_str(&e)),
+        };
+    }
     let mut out: Vec<String> = vec![];
     // every yielded key is looked up again (through the key's own `IntoKeys`): it must resolve to the node it was
     // yielded for; a disagreement is appended to the item, which neither the model nor the oracle ever print
@@ -441,7 +467,7 @@ fn iter_run<M: TreeKey + ?Sized, N: Transcode + Default + ShowTarget, const D: u
 }
 
 fn iter_d<M: TreeKey + ?Sized, const D: usize>(
-    root: Option<&KeySpec>,
+    root: &RootHist,
     target: &str,
     polls: usize,
     exact: bool,
@@ -472,7 +498,7 @@ fn summarise(out: Vec<String>) -> String {
 /// `iter <D> <rootkeyspec|-> <target> <cap> <polls> <exact>`
 pub fn op_iter<M: TreeKey + ?Sized>(
     d: usize,
-    root: Option<&KeySpec>,
+    root: &RootHist,
     target: &str,
     cap: usize,
     polls: usize,
@@ -544,15 +570,8 @@ pub fn tk_ops<M: TreeKey + ?Sized>(args: &[&str]) -> String {
             let (Some(d), Some(cap), Some(polls), Some(limit)) = (usz(d), usz(cap), usz(polls), usz(limit)) else {
                 return "bad-op".into();
             };
-            let root = if *root == "-" {
-                None
-            } else {
-                match KeySpec::parse(root) {
-                    Some(k) => Some(k),
-                    None => return "bad-op".into(),
-                }
-            };
-            op_iter::<M>(d, root.as_ref(), target, cap, polls, *exact == "1", limit)
+            let Some(root) = RootHist::parse(root) else { return "bad-op".into() };
+            op_iter::<M>(d, &root, target, cap, polls, *exact == "1", limit)
         }
         ["meta"] => op_meta::<M>(),
         _ => "bad-op".into(),
